@@ -3,7 +3,7 @@
    (indices + utility rows) recorded from the implementation; the theorem
    derives the user-level property from the mechanism-level conditions. *)
 From Coq Require Import ZArith List Bool.
-From V Require Import Base.OptOrder Model.Sel Model.PoolQuery Proofs.SelProofs Proofs.PoolProofs Proofs.SkeletonProofs.
+From V Require Import Base.OptOrder Model.Sel Model.PoolQuery Proofs.SelProofs Proofs.PoolProofs Proofs.SkeletonProofs Model.PoolLoops Proofs.PoolLoopsProofs.
 Import ListNotations.
 Close Scope Z_scope.
 
@@ -66,6 +66,29 @@ Proof.
 Qed.
 Print Assumptions C01_skeleton_returns_valid_batch.
 
+
+(* hand-written selection loops (the numeric layer is a universally quantified oracle):
+   CoreSet's greedy k-center loop returns k pairwise distinct candidates for EVERY distance
+   function, including all ties and the all-distances-zero branch *)
+Theorem C01_coreset_loop_valid_batch :
+  forall (d : nat -> nat -> Z) (w : nat) (mapping centers0 : list nat) (k : nat) (noises : list (list Z)),
+  (forall j, In j mapping -> ~ In j centers0) ->
+  NoDup mapping -> Forall (fun i => i < w) mapping -> k <= length mapping -> noises_ok w k noises ->
+  let picks := map fst (coreset_loop d w mapping centers0 k noises) in
+  length picks = k /\ NoDup picks /\ Forall (fun p => In p mapping) picks.
+Proof. exact coreset_valid_batch. Qed.
+Print Assumptions C01_coreset_loop_valid_batch.
+
+(* ProbCover's batch loop, for EVERY edge matrix (any graph, any coverage pattern) *)
+Theorem C01_probcover_loop_valid_batch :
+  forall (cs : list nat) (n : nat) (edges : list (list bool)) (is_cand : list bool) (k : nat) (noises : list (list Z)),
+  NoDup cs -> Forall (fun i => i < n) cs -> k <= length cs ->
+  length is_cand = n -> (forall j, j < n -> nth j is_cand false = memb j cs) -> noises_ok n k noises ->
+  let picks := map fst (probcover_loop edges is_cand k noises) in
+  length picks = k /\ NoDup picks /\ Forall (fun p => In p cs) picks.
+Proof. exact probcover_valid_batch. Qed.
+Print Assumptions C01_probcover_loop_valid_batch.
+
 (* non-vacuity: a 6-sample pool, two labeled samples, ties among the utilities *)
 Example C01_nonvacuous :
   let lab := [true; false; false; true; false; false] in
@@ -75,3 +98,13 @@ Example C01_nonvacuous :
   accepts_pool SelMax lab CNone 3 t = true /\ accepts_pool SelMax lab CNone 5 t = false /\
   map fst (skeleton lab (CIdx [4; 1; 4; 5]) [Some 7; Some 7; Some 1]%Z [[1; 2; 3; 4; 5; 6]; [6; 5; 4; 3; 2; 1]]%Z 2) = [4; 1].
 Proof. vm_compute. repeat split; reflexivity. Qed.
+
+(* non-vacuity of the loop theorems: points 0,0,2,2,5 (duplicates, zero distances), sample 0 labeled;
+   a 4-vertex graph with covered columns *)
+Example C01_loops_nonvacuous :
+  let D := [[0;0;2;2;5];[0;0;2;2;5];[2;2;0;0;3];[2;2;0;0;3];[5;5;3;3;0]]%Z in
+  let d := fun i j => nth j (nth i D []) 0%Z in
+  map fst (coreset_loop d 5 [1;2;3;4] [0] 4 [[1;2;3;4;5];[5;4;3;2;1];[1;2;3;4;5];[2;1;2;1;2]]%Z) = [4; 2; 3; 1] /\
+  map fst (probcover_loop [[true;true;false;false];[true;true;true;false];[false;true;true;false];[false;false;false;true]]
+             [false;true;true;true] 3 [[1;2;3;4];[4;3;2;1];[1;1;2;1]]%Z) = [3; 1; 2].
+Proof. vm_compute. split; reflexivity. Qed.
